@@ -27,8 +27,10 @@ int main(int argc, char **argv)
         int protlet[6] = {0, 4, 9, 17, 20, 22};   /* A C I W B X */
         for (int t = 0; t < 5; t++) {
                 struct aln_param *ap = NULL;
-                if (aln_param_init(&ap, types[t][0], 1, types[t][1], -1, -1, -1) != OK) return 2;
+                float pg = argc > 5 ? atof(argv[3]) : -1, pe = argc > 5 ? atof(argv[4]) : -1, pt = argc > 5 ? atof(argv[5]) : -1;
+                if (aln_param_init(&ap, types[t][0], 1, types[t][1], pg, pe, pt) != OK) return 2;
                 float tol = (types[t][1] == KALIGN_TYPE_RNA) ? 0.06f : 0.011f;
+                if (argc > 5) tol += 2.0f * ap->gpo;   /* user penalties: the property's safe margin (2*gpo), see DESIGN.md C07 */
                 long tf = 0, tt = 0;
                 for (int la = 1; la <= lmax; la++) for (int lb = la; lb <= lmax; lb++) {
                         long n = 1; for (int k = 0; k < la + lb; k++) n *= nlet;
